@@ -168,6 +168,16 @@ def r2(run):
         srcs = F.content_sources(a.setters.get("hash"), run.facts)
         run.ob(MOD + "::execute_command|worker|recv-content", bool(srcs) and all(c.fn.startswith("xs::store::Store::cas_insert") for c in srcs), a.call.sp,
                "each recv frame references the CAS entry of the value it reports (%s)" % [c.fn.split("::")[-1] for c in srcs], reason="command-output-lost")
+        # a value whose content could not be stored does not end in `.complete`: the failure edge of that CAS write reaches no `.complete` append
+        completes = [x for x in F.appends_in(w) if classify(x) == "complete"]
+        for c in srcs:
+            if c.body is not w or not c.fn.startswith("xs::store::Store::cas_insert"):
+                continue
+            ee = q.call_result_edges(w, c, ok=False)
+            reach = w.reachable_blocks([t for (_, t, _) in ee]) if ee else set()
+            hit = [x.call.sp for x in completes if x.call.bb in reach]
+            run.ob(MOD + "::execute_command|worker|recv-store-failure-is-not-complete", bool(ee) and not hit, c.sp,
+                   "when storing a value's content fails, no `.complete` follows (the call ends in the one `.error`): %s" % hit, reason="command-output-lost")
     # the unbuffered .append handed to the closure: call's context + base stamps
     ctor = [c for c in w.calls() if c.bb in w.live_blocks() and c.fn == "xs::nu::commands::append_command::AppendCommand::new"]
     run.exact("unbuffered AppendCommand constructions in the worker", len(ctor), 1, w.sp)
